@@ -298,6 +298,12 @@ async fn scatter_sql_over_table(
             elapsed_ms: started.elapsed().as_secs_f64() * 1000.0,
             local: true,
         });
+        if r.batches.is_empty() {
+            // Same convention as `decode_ipc` for a remote shard: a rowless
+            // answer still contributes its schema, or the merge stage has
+            // nothing to build the (empty) result from.
+            batches.push(RecordBatch::new_empty(r.schema.clone()));
+        }
         batches.extend(r.batches);
         return Ok((batches, contributions));
     }
@@ -343,6 +349,7 @@ async fn scatter_sql_over_table(
     let (remote_out, local_out) = futures::future::join(remote, local).await;
     let local_out: Option<_> = local_out?;
 
+    let mut local_schema: Option<arrow::datatypes::SchemaRef> = None;
     if let Some((i, r, stats, elapsed)) = local_out {
         contributions.push(NodeContribution {
             node_id: participants[i].node_id,
@@ -356,6 +363,7 @@ async fn scatter_sql_over_table(
             elapsed_ms: elapsed.as_secs_f64() * 1000.0,
             local: true,
         });
+        local_schema = Some(r.schema.clone());
         batches.extend(r.batches);
     }
 
@@ -393,6 +401,17 @@ async fn scatter_sql_over_table(
             local: false,
         });
         batches.extend(decoded);
+    }
+
+    if batches.is_empty() {
+        // Only the initiator's own shard was active and it matched no row: the
+        // in-process result has no batches (a remote shard would have shipped
+        // a schema-only stream, see `decode_ipc`). Contribute the schema, or
+        // the merge stage fails an empty answer with "no shard returned a
+        // schema".
+        if let Some(schema) = local_schema {
+            batches.push(RecordBatch::new_empty(schema));
+        }
     }
 
     contributions.sort_by_key(|c| c.shard_index);
